@@ -174,6 +174,9 @@ def z_of(e, names):
     raise Outside
 
 
+_REF_FRESH = itertools.count()
+
+
 def ref_z3(t, bound=None):
     """Independent, guard-correct encoding (mirrors the proved translation; also reals, division with x/0 = 0, min/max/abs, if)."""
     bound = bound or {}
@@ -196,7 +199,8 @@ def ref_z3(t, bound=None):
         return z3.RealVal(n) if t.get_type() == RealType else z3.IntVal(n)
     if t.is_forall() or t.is_exists():
         T = t.arg.var_T
-        v = Var(t.arg.var_name, T)
+        # a name that no other binder or free variable of the goal carries (nested binders may share their suggested name)
+        v = Var('%s__b%d' % (t.arg.var_name, next(_REF_FRESH)), T)
         zv = ref_z3(v)
         body = ref_z3(t.arg.subst_bound(v))
         if t.is_forall():
@@ -547,6 +551,45 @@ def run_check(tier, seed):
                 run.violation('correspondence', 'correspondence:C06/tr: the model translation and z3wrapper.convert differ on %s' % text,
                               dict(correspondence='C06/tr', goal=text), failing_input=False)
     run.cov['correspondence'] = dict(cases=len(exprs), disagree=dis)
+
+    # nested quantifiers that share their suggested bound name (terms as beta-reduction / substitution produce them, not the
+    # parser); the inner body mentions the outer variable.  Judged by the reference encoding, which renames every binder apart.
+    from kernel.term import Abs, Bound, Comb, Const
+    from kernel.type import TFun
+    from kernel import term as kterm
+
+    def quant(q, nm, T, body):
+        return Comb(Const('all' if q == '!' else 'exists', TFun(TFun(T, BoolType), BoolType)), Abs(nm, T, body))
+    rels = [kterm.less_eq, kterm.less, kterm.greater_eq, kterm.greater]
+    n_nested = 0
+    for _ in range(40 * scale):
+        T = r.choice([NatType, IntType])
+        names = r.choice([('x', 'x'), ('x', 'x'), ('m', 'm'), ('x', 'x1'), ('n', 'n')])
+        q1, q2 = r.choice('!?'), r.choice('!?')
+        rel = r.choice(rels)(T)
+        a, b = r.choice([(Bound(0), Bound(1)), (Bound(1), Bound(0))])
+        if r.random() < 0.3:
+            b = kterm.plus(T)(b, kterm.Number(T, 1))
+        body = rel(a, b)
+        goal = quant(q1, names[0], T, quant(q2, names[1], T, body))
+        if r.random() < 0.3:
+            goal = kterm.Implies(goal, kterm.false)
+        try:
+            solved = z3wrapper.solve(goal)
+        except RecursionError:
+            raise
+        except Exception as e:
+            run.stat('nested_exc:' + type(e).__name__)
+            continue
+        n_nested += 1
+        run.stat('z3:nested-same-name:%s' % ('solved' if solved else 'unsolved'))
+        if solved:
+            valid, model = ref_decide(goal)
+            if valid is False:
+                run.violation('property', 'Z3 step accepts a goal with nested same-name binders that is not valid: %s' % repr(goal),
+                              dict(goal=repr(goal), printed=sstr(goal), counter_model=model, reproduce='z3wrapper.solve(goal) in theory int'),
+                              key='C06:z3-accepts-invalid:nested-binder')
+        run.count(('z3-nested', repr(goal)), nontrivial=solved)
 
     # histories: the same TEXT at different variable types in one process (printing drops the types of free
     # variables, so anything remembered per printed goal would carry a nat verdict over to int)
